@@ -133,6 +133,32 @@ func runC08(c *Ctx) {
 							report(ins, o, f, "map delete")
 						}
 					}
+				case (n == "sync.Map.Store" || n == "sync.Map.LoadOrStore" || n == "sync.Map.Swap" || n == "sync.Map.CompareAndSwap") && len(args) >= 3:
+					// a synchronised table on a shared object: the table itself is safe, but a value computed while serving
+					// one request and published there is handed to every later request. Accepted only when the value
+					// cannot be mutated through (string, number, bool, func).
+					o, f, ok := sharedField(args[0])
+					if !ok {
+						if g, isG := args[0].(*ssa.Global); isG && g.Pkg.Pkg.Path() == interpPath {
+							o, f, ok = "global", g.Name(), true
+						}
+					}
+					if ok {
+						val := args[2]
+						if mi, isMI := val.(*ssa.MakeInterface); isMI {
+							val = mi.X
+						}
+						immutable := false
+						if bt, isB := val.Type().Underlying().(*types.Basic); isB && bt.Kind() != types.UnsafePointer {
+							immutable = true
+						}
+						if _, isSig := val.Type().Underlying().(*types.Signature); isSig {
+							immutable = true
+						}
+						if !immutable {
+							c.ob("C08-R1", fnKey(fn)+"#shared-write:"+o+"."+f+":published request-time value", ins.Pos(), false, "request-path code publishes a value of type "+val.Type().String()+" computed while serving one request in the shared "+o+"."+f+" table: every later request receives the same Go map/slice/object, so in-place edits by one request (`$ input.tags[0] = ...`) show up in, or race with, the others")
+						}
+					}
 				case strings.HasPrefix(n, "sync/atomic.") && !strings.Contains(n, ".Load") && len(args) > 0:
 					if o, f, ok := sharedField(args[0]); ok {
 						report(ins, o, f, "atomic read-modify-write")
